@@ -554,10 +554,26 @@ func paramOfIface(f *ssa.Function, name string) int {
 // gateDominates: the error result of call is tested against nil, the non-nil edge returns, and the
 // call's block dominates every later table index / pool / HMAC use in the function.
 func gateDominates(c *Check, w *World, rule string, f *ssa.Function, call ssa.CallInstruction, what string) {
-	v := call.Value()
-	if v == nil {
+	cv := call.Value()
+	if cv == nil {
 		c.Bad(rule, FuncName(f), what+"-gate", "result of "+what+" is discarded", w.InstrPos(call))
 		return
+	}
+	var v ssa.Value = cv
+	if _, isTuple := v.Type().(*types.Tuple); isTuple {
+		var ev ssa.Value
+		if refs := v.Referrers(); refs != nil {
+			for _, r := range *refs {
+				if ex, ok := r.(*ssa.Extract); ok && isErrorType(ex.Type()) {
+					ev = ex
+				}
+			}
+		}
+		if ev == nil {
+			c.Bad(rule, FuncName(f), what+"-gate", "the error returned by "+what+" is discarded", w.InstrPos(call))
+			return
+		}
+		v = ev
 	}
 	// find If on (v != nil) / (v == nil)
 	var gate *ssa.If
